@@ -116,30 +116,40 @@ func jsonEscape(value Expr) interface{} {
 			result[name] = jsonEscape(value)
 		}
 		return result
-	case String:
-		return string(x.s)
 	case EmptySet:
 		return false
+	case String:
+		if x.offset == 0 && x.holes == 0 {
+			return string(x.s)
+		}
+		return jsonEscapeSet(x)
 	case Array:
+		if x.offset != 0 || x.count != len(x.values) {
+			return jsonEscapeSet(x)
+		}
 		array := make([]interface{}, 0, x.Count())
 		for e := x.ArrayEnumerator(); e.MoveNext(); {
 			array = append(array, jsonEscape(e.Current()))
 		}
-		return map[string]interface{}{"{||}": array}
+		return array
 	case Set:
 		if x.Equal(True) {
 			return true
 		}
-		array := make([]interface{}, 0, x.Count())
-		for e := x.Enumerator(); e.MoveNext(); {
-			array = append(array, jsonEscape(e.Current()))
-		}
-		return map[string]interface{}{"{||}": array}
+		return jsonEscapeSet(x)
 	case Expr:
 		panic(fmt.Sprintf("Bare expressions cannot be JSON escaped: %#v", x))
 	default:
 		panic(fmt.Sprintf("Unrecognised value: %v (%[1]T)", value))
 	}
+}
+
+func jsonEscapeSet(x Set) interface{} {
+	array := make([]interface{}, 0, x.Count())
+	for e := x.Enumerator(); e.MoveNext(); {
+		array = append(array, jsonEscape(e.Current()))
+	}
+	return map[string]interface{}{"{||}": array}
 }
 
 func jsonUnescape(i interface{}) (Value, error) {
@@ -176,7 +186,7 @@ func jsonUnescape(i interface{}) (Value, error) {
 							}
 							items = append(items, value)
 						}
-						return NewArray(items...), nil
+						return NewSet(items...)
 					}
 					return nil, errors.Errorf(
 						`x must be array in {"{||}": x}, not %T`, value)
